@@ -958,7 +958,81 @@ def build_T16k(tree):
     return t1 + '\n\n' + t2, hashlib.sha256('\n'.join(shas).encode()).hexdigest()
 
 
+# ---------------------------------------------------------------- T16l: the skeleton of `matches` in the three loop bodies
+class _CodeText(ast.NodeTransformer):
+    """codes.<scheme>.<keyword> and module-level code constants -> 'value|scheme' string constants"""
+    def __init__(self, modcodes):
+        self.modcodes = modcodes
+
+    def visit_Attribute(self, node):
+        c = _code_of(node, self.modcodes)
+        if c is not None:
+            return ast.copy_location(ast.Constant(value=c), node)
+        return self.generic_visit(node)
+
+    def visit_Name(self, node):
+        if node.id in self.modcodes and isinstance(node.ctx, ast.Load):
+            return ast.copy_location(ast.Constant(value=self.modcodes[node.id]), node)
+        return node
+
+
+# the two recurring tests of the loop bodies get a name (the table `queryConditionNames` carries their text)
+_COND_NAMES = {
+    'reference_type is not None or graphic_type is not None or referenced_sop_class_uid is not None or (referenced_sop_instance_uid is not None)': 'NEEDS_REF',
+    'referenced_sop_instance_uid is not None or referenced_sop_class_uid is not None': 'HAS_UID',
+}
+
+
+def _skeleton(stmts, cond, out):
+    """(kind, path condition, text) of every `matches.append(e)` and every assignment to a name starting with `matches` in
+    a block, in program order; loops are named in the condition"""
+    nrm = lambda n: ' '.join(ast.unparse(n).split())   # noqa: E731
+    for st in stmts:
+        c = ' and '.join(_COND_NAMES.get(x, ('(' + x + ')') if ' or ' in x else x) for x in cond) or 'True'
+        if isinstance(st, ast.Expr) and isinstance(st.value, ast.Call) and ast.unparse(st.value.func) == 'matches.append':
+            out.append(('append', c, nrm(st.value.args[0])))
+        elif isinstance(st, ast.Assign) and len(st.targets) == 1 and isinstance(st.targets[0], ast.Name) and st.targets[0].id.startswith('matches'):
+            out.append(('assign ' + st.targets[0].id, c, nrm(st.value)))
+        elif isinstance(st, ast.If):
+            t = nrm(st.test)
+            _skeleton(st.body, cond + (t,), out)
+            _skeleton(st.orelse, cond + ('not (' + t + ')',), out)
+        elif isinstance(st, ast.For):
+            _skeleton(st.body, cond + ('for ' + nrm(st.target) + ' in ' + nrm(st.iter),), out)
+    return out
+
+
+def build_T16l(tree):
+    """The skeleton of the filter part of the three loop bodies: which entries are appended to `matches`, under which
+    condition, and how `matches_uids` (the referenced-UID entry) is put together - every `matches.append(...)` and every
+    assignment to a `matches*` variable with its path condition, coded concepts written as 'value|scheme'.
+      Gen.queryMatchesSkeleton : List (String × String × String × String)   (method, kind, condition, text)"""
+    modcodes = _module_codes(tree)
+    rows, shas = [], []
+    for meth in ('get_planar_roi_measurement_groups', 'get_volumetric_roi_measurement_groups', 'get_image_measurement_groups'):
+        fn = find_func(tree, f'MeasurementReport.{meth}')
+        loops = [s for s in strip_doc(fn.body) if isinstance(s, ast.For) and ast.unparse(s.target) == 'group_item'
+                 and ast.unparse(s.iter) == 'measurement_group_items']
+        if len(loops) != 1:
+            raise Unsupported(f'{meth}: loop over measurement_group_items not found')
+        body = [_CodeText(modcodes).visit(ast.parse(ast.unparse(x)).body[0]) for x in loops[0].body]
+        for kind, c, t in _skeleton(body, (), []):
+            rows.append((meth.replace('get_', '').replace('_roi_measurement_groups', '').replace('_measurement_groups', ''), kind, c, t))
+        shas.append(ast.unparse(loops[0]))
+    if not rows:
+        raise Unsupported('no `matches` entries found in the query loops')
+    q = lambda x: '"' + x.replace('\\', '\\\\').replace('"', '\\"') + '"'   # noqa: E731
+    t = lean_table('queryMatchesSkeleton', 'List (String × String × String × String)',
+                   ['(' + ', '.join(q(x) for x in r) + ')' for r in rows],
+                   doc='per query: (method, kind, path condition, text) of every `matches.append(...)` and every assignment to a '
+                       '`matches*` variable in the loop body')
+    t2 = lean_table('queryConditionNames', 'List (String × String)', ['(' + q(v) + ', ' + q(k) + ')' for k, v in _COND_NAMES.items()],
+                    doc='the tests abbreviated in `queryMatchesSkeleton`')
+    return t + '\n\n' + t2, hashlib.sha256('\n'.join(shas).encode()).hexdigest()
+
+
 TARGETS = {
+    'T16l': {'file': 'sr/templates.py', 'build': build_T16l},
     'T16k': {'file': 'sr/templates.py', 'build': build_T16k},
     'T16h': {'file': 'sr/templates.py', 'build': build_T16h},
     'T16i': {'file': 'sr/templates.py', 'build': build_T16i},
